@@ -509,7 +509,7 @@ theorem compNE_correct (C : Ctx D) (QC : QCtx D) (hN : QC.N = C.N) (nm : Nat →
         (by simpa [compNE] using hdone) hwt.1 hhyp.not hda
       refine ⟨s1, by simpa [compNE] using h1, h2, by simp [compNE, evalE, h3, hden], ?_, by simpa [compNE] using h5⟩
       simp only [tyNE]
-      rw [hwt.2] at h4 ⊢
+      rw [hwt.2] at h4
       obtain ⟨b, rfl⟩ := hasTy_bool h4
       simp [unop, asBool] at hden; subst hden; simp [HasTy]
 
